@@ -124,7 +124,11 @@ where
     while rect.size.width > 0 {
         target.fill_solid(&rect, D::Color::WHITE)?;
 
-        rect.top_left.y += 1;
+        // There are no rows below `i32::MAX`.
+        let Some(y) = rect.top_left.y.checked_add(1) else {
+            break;
+        };
+        rect.top_left.y = y;
         rect.size.width -= 1;
     }
 
@@ -197,7 +201,15 @@ impl<C: RgbColor> Drawable for Character<C> {
     where
         D: DrawTarget<Color = Self::Color>,
     {
-        let rect = Rectangle::with_center(self.center, Size::new(9, 11));
+        // `Rectangle::with_center` would overflow if the label doesn't fit into the coordinate space.
+        let size = Size::new(9, 11);
+        let (Some(x), Some(y)) = (
+            self.center.x.checked_sub(size.width as i32 / 2),
+            self.center.y.checked_sub(size.height as i32 / 2),
+        ) else {
+            return Ok(());
+        };
+        let rect = Rectangle::new(Point::new(x, y), size);
 
         target.fill_contiguous(
             &rect,
